@@ -20,7 +20,8 @@ CONSTANTS NameFr,        \* element names; "" = implicit name
           ModFr,         \* modifiers: "#i", ".c", "[t=v]", "{txt}" ... (kind = first character)
           RepFr,         \* repeaters: "*2", "*" ...
           OpFr,          \* subset of {">", "+", "^", "^^"}
-          MaxFrag, MaxGroups, MaxMods
+          MaxFrag, MaxGroups, MaxMods,
+          ScChild        \* TRUE: ">" may also follow an element that carries the self-closing mark
 
 VARIABLES expect, nfrag, lvl, grp, nmods, hasText, need, sc
 gvars == <<s, tokres, parsed, phase, expect, nfrag, lvl, grp, nmods, hasText, need, sc>>
@@ -44,7 +45,7 @@ Rep == /\ expect \in {"mods", "slash"} /\ ~need
        /\ expect' = "closed" /\ UNCHANGED <<lvl, grp, nmods, hasText, need, sc>>
 Op == /\ expect \in {"mods", "slash", "closed", "op"} /\ ~need
       /\ \E o \in OpFr :
-           /\ (o = ">" => expect # "op" /\ ~sc)
+           /\ (o = ">" => expect # "op" /\ (ScChild \/ ~sc))
            /\ (SubSeq(o, 1, 1) = "^" => grp = <<>> \/ lvl >= Len(o))      \* at the top level a climb stops; inside a group it stays in the group here
            /\ Frag(o)
            /\ lvl' = IF o = ">" THEN lvl + 1 ELSE IF o = "+" THEN lvl ELSE Max(0, lvl - Len(o))
@@ -70,5 +71,5 @@ TreeFacts == Complete => LET L == ConvertOut.nodes IN
                 /\ \A i \in 2..Len(L) : L[i].d <= L[i - 1].d + 1                 \* pre-order listing of a forest
 GDump == Complete => PrintT(<<"VEC", ToJson([s |-> s, out |-> ConvertOut, printed |-> Printed,
                                               indent |-> [pug |-> IndentPrinted("pug"), haml |-> IndentPrinted("haml"), slim |-> IndentPrinted("slim")],
-                                              marked |-> [html |-> PrintedF, pug |-> IndentPrintedF("pug"), haml |-> IndentPrintedF("haml"), slim |-> IndentPrintedF("slim")]])>>)
+                                              marked |-> [html |-> PrintedF, htmlc |-> PrintedFC, pug |-> IndentPrintedF("pug"), haml |-> IndentPrintedF("haml"), slim |-> IndentPrintedF("slim")]])>>)
 =============================================================================
